@@ -37,10 +37,10 @@ func init() { fw.Register(&c15{}) }
 
 func (p *c15) ID() string { return "C15" }
 func (p *c15) Rule() string {
-	return "a generated case = one environment (10 zones incl. DST and half-hour zones, 3 date formats, both redaction policies) + one contact model built around an anchor day (35% on a day whose local length is not 24 h; datetime values on 00:00, 00:00:00.000001, 23:59:59.999999(999), +-30 min around midnight in the environment zone; numbers on boundaries; 0-3 URNs; ~30% of fields without value) materialised twice: through static assets + engine session assets + flows.ReadContact, and as a hand-written Queryable. Per target: ~12 leaf conditions aimed at the contact (every attribute, scheme, field type and admissible operator), random AND/OR trees over them (2-4 children, depth <= 3), programmatic trees for Simplify, presence checks for every property, and all six comparators against 4-6 query values next to every typed value. Non-trivial = the case evaluated a combination or a typed comparison on a present value (always true when anything parsed); distinct = distinct (environment, contact, query list)."
+	return "a generated case = one environment (10 zones incl. DST and half-hour zones, 3 date formats, both redaction policies) + one contact model built around an anchor day (35% on a day whose local length is not 24 h; datetime values on 00:00, 00:00:00.000001, 23:59:59.999999(999), +-30 min around midnight in the environment zone; numbers on boundaries and (25%) numbers with 7-18 decimal places or beyond float64 precision; 0-3 URNs; ~30% of fields without value; the 15 fields include six whose key is also an attribute name or a URN scheme — text name/language/tel, number tickets/urn, datetime created_on — with values from the attribute's own pool) materialised twice: through static assets + engine session assets + flows.ReadContact, and as a hand-written Queryable. Per target: ~12 leaf conditions aimed at the contact (every attribute, scheme, field type and admissible operator), random AND/OR trees over them (2-4 children, depth <= 3), programmatic trees for Simplify, 6 pairs of conditions that share key, operator and value but not the property type (fields.language vs language, fields.tel vs tel, …; values = the value of either property) composed in one AND/OR group in both orders, nested in a same-operator group and next to a third condition, presence checks for every property, and all six comparators against ~10 query values for every typed value: the value itself (two spellings), 5 values that differ from it only beyond the 6th-18th decimal place / by rounding or truncating to 0-15 places / by a float64 or float32 detour / by one unit in the 7th-19th significant digit, and 3 distant values. Non-trivial = the case evaluated a combination or a typed comparison on a present value (always true when anything parsed); distinct = distinct (environment, contact, query list)."
 }
 func (p *c15) Directed() []string {
-	return []string{"day-boundaries", "dst-day-length", "number-boundaries", "presence-all", "compose-basic"}
+	return []string{"day-boundaries", "dst-day-length", "number-boundaries", "presence-all", "compose-basic", "colliding-keys", "number-precision"}
 }
 func (p *c15) NumGenerated(tier string) int {
 	if tier == "thorough" {
@@ -63,6 +63,9 @@ func (p *c15) Floors(tier string) []string {
 		"presence.held.absent", "presence.held.present", "presence.held.contact", "presence.held.hand",
 		"trichotomy.number.held", "trichotomy.date.held", "trichotomy.number.equal_case", "trichotomy.date.equal_case",
 		"dateref.held", "dateref.held.boundary_instant", "dateref.held.zone_matters",
+		"compose.twins.held", "compose.twins.held.differing_results", "twins.pairs_with_differing_results",
+		"trichotomy.number.held.near_query_value", "trichotomy.number.held.equal_query_value",
+		"colliding.single_conditions_evaluated",
 	}
 }
 
@@ -340,6 +343,170 @@ func (g *leafGen) leaf() *node {
 }
 
 // ---------------------------------------------------------------------------------------
+// conditions that differ only in the property type
+
+// twins lists pairs of conditions with the same key, operator and value, one on the field and
+// one on the attribute / URN scheme of that name. Values are aimed at the contact: the value of
+// either property, so that on most contacts exactly one of the two holds.
+func (g *leafGen) twins() [][2]*node {
+	m := g.k.model
+	redact := g.k.spec.Redact
+	var out [][2]*node
+	add := func(pt2, key, op, val string) {
+		out = append(out, [2]*node{cond("field", key, op, val), cond(pt2, key, op, val)})
+	}
+	own := func(pt, key string) []any {
+		v, _ := m.refValues(pt, key, g.hand)
+		return v
+	}
+	texts := func(vs ...[]any) []string {
+		var o []string
+		for _, l := range vs {
+			for _, v := range l {
+				if sv, ok := v.(string); ok && sv != "" {
+					o = append(o, noTrailingBackslash(sv))
+				}
+			}
+		}
+		return o
+	}
+	eqne := []string{"=", "!="}
+	// name
+	for _, v := range append(texts(own("attr", "name"), own("field", "name")), "zzz", "") {
+		for _, op := range eqne {
+			add("attr", "name", op, v)
+		}
+		if toks := strings.Fields(v); len(toks) > 0 && len(toks[0]) >= 2 && !strings.ContainsAny(toks[0], `"\()`) {
+			add("attr", "name", "~", toks[0])
+		}
+	}
+	// language
+	for _, v := range append(texts(own("attr", "language"), own("field", "language")), "kin", "") {
+		for _, op := range eqne {
+			add("attr", "language", op, v)
+		}
+	}
+	// tel: the field against the scheme
+	telVals := []string{""}
+	if !redact {
+		telVals = append(telVals, texts(own("urn", "tel"), own("field", "tel"))...)
+		telVals = append(telVals, "+12065550000")
+	}
+	for _, v := range telVals {
+		for _, op := range eqne {
+			add("urn", "tel", op, v)
+		}
+	}
+	// tickets and the number field "urn" (the attribute urn is text: only = and != are shared)
+	nums := func(vs ...[]any) []string {
+		var o []string
+		for _, l := range vs {
+			for _, v := range l {
+				switch tv := v.(type) {
+				case decimal.Decimal:
+					o = append(o, tv.String())
+				case string:
+					if _, err := decimal.NewFromString(tv); err == nil {
+						o = append(o, tv)
+					}
+				}
+			}
+		}
+		return o
+	}
+	for _, v := range append(nums(own("attr", "tickets"), own("field", "tickets")), "1") {
+		for _, op := range sixOps {
+			add("attr", "tickets", op, v)
+		}
+	}
+	if !redact {
+		for _, v := range append(nums(own("attr", "urn"), own("field", "urn")), "12345") {
+			for _, op := range eqne {
+				add("attr", "urn", op, v)
+			}
+		}
+	}
+	// created_on
+	for _, l := range [][]any{own("attr", "created_on"), own("field", "created_on")} {
+		for _, v := range l {
+			if tv, ok := v.(time.Time); ok {
+				y, mo, d := tv.In(g.k.loc).Date()
+				for _, op := range sixOps {
+					add("attr", "created_on", op, fmt.Sprintf("%04d-%02d-%02d", y, int(mo), d))
+				}
+			}
+		}
+	}
+	return out
+}
+
+// checkTwins composes each pair in one AND / OR group, in both orders, directly and through a
+// nested group of the same operator (which simplification flattens into the outer one), with and
+// without a third condition, and as programmatic trees.
+func (k *chk15) checkTwins(r *fw.Rand, t target, pairs [][2]*node, others []*evLeaf, perPair int) {
+	mk := func(n *node) *evLeaf {
+		text := condText(r, n)
+		v, ok := k.eval(t, text)
+		if !ok {
+			return nil
+		}
+		return &evLeaf{n: n, text: text, val: v}
+	}
+	L := func(l *evLeaf) *ctree { return &ctree{leaf: l} }
+	for _, pr := range pairs {
+		a, b := mk(pr[0]), mk(pr[1])
+		if a == nil || b == nil {
+			k.res.Count("twins.not_evaluable", 1)
+			continue
+		}
+		k.res.Count("twins.pairs", 1)
+		k.res.Seen("twins.kinds", pr[1].PT+":"+pr[1].Key+" "+pr[1].Cmp)
+		differ := a.val != b.val
+		if differ {
+			k.res.Count("twins.pairs_with_differing_results", 1)
+		}
+		var c *evLeaf
+		if len(others) > 0 {
+			c = fw.Pick(r, others)
+		}
+		var shapes []*ctree
+		for _, op := range []string{"and", "or"} {
+			shapes = append(shapes,
+				&ctree{op: op, kids: []*ctree{L(a), L(b)}},
+				&ctree{op: op, kids: []*ctree{L(b), L(a)}},
+				&ctree{op: op, kids: []*ctree{L(a), {op: op, kids: []*ctree{L(b), L(a)}}}},
+			)
+			if c != nil {
+				shapes = append(shapes,
+					&ctree{op: op, kids: []*ctree{L(a), L(c), L(b)}},
+					&ctree{op: op, kids: []*ctree{L(a), {op: op, kids: []*ctree{L(c), L(b)}}}},
+					&ctree{op: op, kids: []*ctree{{op: op, kids: []*ctree{L(b), L(c)}}, {op: op, kids: []*ctree{L(c), L(a)}}}},
+					&ctree{op: map[string]string{"and": "or", "or": "and"}[op], kids: []*ctree{L(c), {op: op, kids: []*ctree{L(b), L(a)}}}},
+				)
+			}
+		}
+		if perPair > 0 && perPair < len(shapes) {
+			fw.Shuffle(r, shapes)
+			shapes = shapes[:perPair]
+		}
+		for _, ct := range shapes {
+			before := k.res.Counters["compose.violated"]
+			want, ok := k.checkCompose(r, t, ct)
+			if !ok {
+				continue
+			}
+			k.checkSimplify(t, ct.toNode(), &want)
+			if k.res.Counters["compose.violated"] == before {
+				k.res.Count("compose.twins.held", 1)
+				if differ {
+					k.res.Count("compose.twins.held.differing_results", 1)
+				}
+			}
+		}
+	}
+}
+
+// ---------------------------------------------------------------------------------------
 // compose
 
 type evLeaf struct {
@@ -591,16 +758,81 @@ func propText(pt, key string) string {
 	return key
 }
 
+// nearNumbers: query values that differ from v, but only slightly — beyond the 6th..18th decimal
+// place, by what rounding or truncating v to fewer places changes, by what a detour through a
+// float64 changes, and by one unit in the 15th..18th significant digit (large magnitudes). An
+// equality that is coarser than the ordering (or the other way round) shows up exactly here.
+func nearNumbers(v decimal.Decimal) []string {
+	var out []string
+	seen := map[string]bool{}
+	add := func(d decimal.Decimal) {
+		if d.Equal(v) {
+			return
+		}
+		if s := d.String(); !seen[s] {
+			seen[s] = true
+			out = append(out, s)
+		}
+	}
+	for _, e := range []int32{-7, -8, -9, -10, -12, -15, -18} {
+		t := decimal.New(1, e)
+		add(v.Add(t))
+		add(v.Sub(t))
+	}
+	for _, c := range []int64{4, 5, 6} { // around the rounding point of the 6th place
+		t := decimal.New(c, -7)
+		add(v.Add(t))
+		add(v.Sub(t))
+	}
+	for _, p := range []int32{0, 1, 2, 3, 4, 5, 6, 7, 8, 9, 12, 15} {
+		add(v.Round(p))
+		add(v.Truncate(p))
+		add(v.RoundCeil(p))
+		add(v.RoundFloor(p))
+	}
+	add(decimal.NewFromFloat(v.InexactFloat64()))
+	add(decimal.NewFromFloat32(float32(v.InexactFloat64())))
+	if !v.IsZero() {
+		lead := len(v.Abs().Coefficient().String()) + int(v.Exponent()) // 10^lead > |v|
+		for _, k := range []int{7, 10, 15, 16, 17, 18, 19} {
+			u := decimal.New(1, int32(lead-k))
+			add(v.Add(u))
+			add(v.Sub(u))
+		}
+	}
+	return out
+}
+
 func (k *chk15) checkNumber(r *fw.Rand, t target, pt, key string, v decimal.Decimal) {
 	prop := propText(pt, key)
 	one := decimal.New(1, 0)
 	eps := decimal.New(1, -6)
-	xs := []string{v.String(), v.Add(one).String(), v.Sub(one).String(), v.Add(eps).String(), v.Sub(eps).String(), v.StringFixed(2), v.Neg().String(), "0", fw.Pick(r, boundaryNumbers)}
+	far := []string{v.Add(one).String(), v.Sub(one).String(), v.Add(eps).String(), v.Sub(eps).String(), v.StringFixed(2), v.Neg().String(), "0", fw.Pick(r, boundaryNumbers)}
+	equal := []string{v.String()}
 	if v.IsInteger() && v.Abs().LessThan(decimal.New(1, 9)) {
-		xs = append(xs, v.String()+"e0", v.String()+".000")
+		equal = append(equal, v.String()+"e0", v.String()+".000")
+	} else if v.Exponent() < 0 {
+		equal = append(equal, v.String()+"000")
 	}
-	fw.Shuffle(r, xs[1:]) // the equal case is always among the five
-	for _, x := range xs[:5] {
+	near := nearNumbers(v)
+	fw.Shuffle(r, far)
+	fw.Shuffle(r, near)
+	type qv struct {
+		x    string
+		kind string
+	}
+	xs := []qv{{equal[0], "equal"}}
+	if len(equal) > 1 {
+		xs = append(xs, qv{equal[1+r.Intn(len(equal)-1)], "equal"})
+	}
+	for i := 0; i < 5 && i < len(near); i++ {
+		xs = append(xs, qv{near[i], "near"})
+	}
+	for i := 0; i < 3; i++ {
+		xs = append(xs, qv{far[i], "far"})
+	}
+	for _, q := range xs {
+		x := q.x
 		o, ok := k.sixWay(t, prop, x)
 		if !ok {
 			k.res.Count("trichotomy.skipped_not_evaluable", 1)
@@ -610,12 +842,23 @@ func (k *chk15) checkNumber(r *fw.Rand, t target, pt, key string, v decimal.Deci
 		if bad := consistent(o); bad != "" {
 			k.res.Count("trichotomy.violated", 1)
 			k.res.Violate("trichotomy|number|"+stripCount(bad), fmt.Sprintf("%s with value %s against %s: [= != > >= < <=] = %v (%s)", prop, v, x, o, bad),
-				k.witness(t, map[string]any{"property": prop, "value": v.String(), "query_value": x, "results_eq_ne_gt_ge_lt_le": o}))
+				k.witness(t, map[string]any{"property": prop, "value": v.String(), "query_value": x, "query_value_kind": q.kind, "results_eq_ne_gt_ge_lt_le": o}))
 			continue
 		}
 		k.res.Count("trichotomy.number.held", 1)
+		k.res.Count("trichotomy.number.held."+q.kind+"_query_value", 1)
 		if o[0] {
 			k.res.Count("trichotomy.number.equal_case", 1)
+		}
+		// not part of the statement (it only demands mutual consistency), so observed, never judged:
+		// does the outcome agree with the exact comparison of the two decimals?
+		if xd, err := decimal.NewFromString(x); err == nil && t.hand {
+			c := v.Cmp(xd)
+			if o == [6]bool{c == 0, c != 0, c > 0, c >= 0, c < 0, c <= 0} {
+				k.res.Count("outside_statement.number_comparison_is_exact", 1)
+			} else {
+				k.res.Count("outside_statement.number_comparison_is_not_exact", 1)
+			}
 		}
 	}
 }
@@ -857,8 +1100,28 @@ func (k *chk15) runTarget(r *fw.Rand, t target) {
 			}
 		}
 	}
+	// pairs of conditions that differ only in the property type, aimed at this contact
+	pairs := lg.twins()
+	fw.Shuffle(r, pairs)
+	if len(pairs) > 6 {
+		pairs = pairs[:6]
+	}
+	k.checkTwins(r, t, pairs, leaves, 3)
 	k.allPresence(t)
 	k.typedChecks(r, t)
+}
+
+// valueKind is a coarse description of a query value (evidence only).
+func valueKind(v string) string {
+	switch {
+	case v == "":
+		return "empty"
+	case isNumberLike(v):
+		return "number"
+	case len(v) == 10 && v[4] == '-':
+		return "date"
+	}
+	return "text"
 }
 
 func kindKey(n *node) string {
@@ -1032,6 +1295,70 @@ func (k *chk15) directed(name string) {
 			for _, red := range []bool{false, true} {
 				for _, t := range k.setup(envSpec{Zone: "Africa/Kigali", DateFmt: envs.DateFormatDayMonthYear, Redact: red}, m) {
 					k.allPresence(t)
+				}
+			}
+		}
+	case "colliding-keys":
+		// a contact on which every field that shares its key with an attribute / scheme has a value
+		// different from the attribute's
+		mkContact := func() *contactModel {
+			m := baseContact(time.UTC)
+			m.URNs = []urnVal{{"tel", "+12065551212"}, {"twitter", "ewok"}, {"facebook", "12345"}}
+			three := decimal.RequireFromString("3")
+			fb := decimal.RequireFromString("987654")
+			fc := time.Date(2021, 6, 15, 10, 0, 0, 0, time.UTC)
+			m.Fields["name"] = fieldVal{Text: "Bob Smith"}
+			m.Fields["language"] = fieldVal{Text: "fra"}
+			m.Fields["tel"] = fieldVal{Text: "+250788123123"}
+			m.Fields["tickets"] = fieldVal{Text: "3", Num: &three}
+			m.Fields["urn"] = fieldVal{Text: "987654", Num: &fb}
+			m.Fields["created_on"] = fieldVal{Text: "x", Time: &fc}
+			return m
+		}
+		for _, red := range []bool{false, true} {
+			for _, t := range k.setup(envSpec{Zone: "UTC", DateFmt: envs.DateFormatYearMonthDay, Redact: red}, mkContact()) {
+				lg := &leafGen{r: r, k: k, hand: t.hand}
+				other := cond("field", "gender", "=", "male")
+				otext := condText(r, other)
+				ov, ok := k.eval(t, otext)
+				if !ok {
+					k.res.Inconclusive = "colliding-keys: a basic condition was rejected"
+					return
+				}
+				k.checkTwins(r, t, lg.twins(), []*evLeaf{{n: other, text: otext, val: ov}}, 0)
+				// totality: every operator on every colliding field (and on its namesake), values of every kind
+				for _, f := range fieldSpecs {
+					if !collides(f.Key) {
+						continue
+					}
+					for _, op := range []string{"=", "!=", "~", ">", ">=", "<", "<="} {
+						for _, v := range []string{"", "x", "Bob", "bob smith", "eng", "fra", "3", "1", "987654", "12345", "123", "0.5", "+250788123123", "2021-06-15", "2020-01-24", "ab"} {
+							for _, prop := range []string{"fields." + f.Key, f.Key} {
+								if _, ok := k.eval(t, prop+" "+op+" "+strconv.Quote(v)); ok {
+									k.res.Count("colliding.single_conditions_evaluated", 1)
+									k.res.Seen("colliding.admitted", prop+" "+op+" "+valueKind(v))
+								}
+							}
+						}
+					}
+				}
+			}
+		}
+	case "number-precision":
+		// contact numbers that differ from a round neighbour only far behind the decimal point or in
+		// the last digit of a large integer, against every near query value
+		for _, s := range []string{"0.3333333333333333", "0.333333", "99.9999999", "100", "0.30000000000000004", "1000000000000000001", "1000000000000000000",
+			"9007199254740993", "123456789.123456789", "0.0000001", "-0.0000004", "2.5000000000000001", "-99.9999995", "0.000000000000000001", "36.5", "0"} {
+			d := decimal.RequireFromString(s)
+			m := baseContact(time.UTC)
+			m.Fields["age"] = fieldVal{Text: s, Num: &d}
+			m.Tickets = d
+			for _, t := range k.setup(envSpec{Zone: "UTC", DateFmt: envs.DateFormatYearMonthDay}, m) {
+				for rep := 0; rep < 6; rep++ { // 6 x 5 of the near values
+					k.checkNumber(r, t, "field", "age", d)
+				}
+				if t.hand {
+					k.checkNumber(r, t, "attr", "tickets", d)
 				}
 			}
 		}
